@@ -70,6 +70,8 @@ class C16(Prop):
         "other columns of the stacked matrix untouched (recorded), caller's X / grid / weights identical before and after "
         "(values and dtypes), equal seeds give equal results. Non-trivial = interaction coefficient != 0 and a grid value "
         "that is not in the column."
+        "Later additions: unsigned numpy / polars feature columns, a list of integer numpy rows (refusing a non-integer grid value with ValueError is "
+        "accepted, truncating is not), exact-zero weights together with subsampling. "
     )
     assumptions = ["np.random.default_rng(seed).choice is the documented draw; predict functions are row-wise"]
 
